@@ -232,3 +232,17 @@ func (w *bigWatch) finish(out *ev.Outcome, what string) {
 		out.Err, out.Sig = fmt.Errorf("%s: an operand was modified by the call(s) it was passed to: %s", what, ch), "operand-modified"
 	}
 }
+
+// pollWaitingFor makes the application-side call WaitingFor() on every party after every simulator step (an
+// application may poll it at any time; it must be a pure observer).
+func pollWaitingFor(net *sim.Net) {
+	prev := net.AfterStep
+	net.AfterStep = func(s sim.Step) {
+		for _, nd := range net.Nodes {
+			_ = nd.P.WaitingFor()
+		}
+		if prev != nil {
+			prev(s)
+		}
+	}
+}
